@@ -1,5 +1,5 @@
 (* Proofs/C01.v -- no Panic branch of the model is reachable. *)
-From MS Require Import Proofs.Tactics Proofs.SmbSafe Proofs.HttpFold Proofs.HttpParse Proofs.C13
+From MS Require Import Proofs.Tactics Proofs.Pending Proofs.SmbSafe Proofs.HttpFold Proofs.HttpParse Proofs.C13
      Proofs.Pipeline Proofs.Factor Proofs.C06 Proofs.ViewLemmas
      L2 Spec.View Spec.History Spec.EnvOk Spec.C11http Spec.C01.
 
@@ -49,7 +49,7 @@ Lemma ports_kept_refl ci : ports_kept ci ci.
 Proof. split; [reflexivity|eauto]. Qed.
 
 Definition opt_tcb_ok (E : env) (t : option tcb) : Prop :=
-  match t with Some tc => tcb_ok E tc | None => True end.
+  match t with Some tc => tcb_state_ok E tc | None => True end.
 
 Lemma dispatch_ok E clk ci t p id :
   env_ok E = true -> bytes_ok p = true ->
@@ -58,7 +58,7 @@ Lemma dispatch_ok E clk ci t p id :
   (match t with Some tc => id = t_proto tc | None => True end) ->
   exists ci' t' o, dispatch E clk ci id t p = Ok (ci', t', o) /\ ports_kept ci ci' /\
                    match t, t' with
-                   | Some _, Some tc' => tcb_ok E tc'
+                   | Some _, Some tc' => tcb_state_ok E tc'
                    | None, None => True
                    | _, _ => False
                    end.
@@ -67,16 +67,16 @@ Proof.
   unfold dispatch.
   destruct (id =? PROTO_HTTP) eqn:E1.
   { apply N.eqb_eq in E1. destruct t as [tc|].
-    - cbn [opt_tcb_ok] in Ht. unfold tcb_ok in Ht.
+    - cbn [opt_tcb_ok] in Ht. unfold tcb_state_ok in Ht.
       destruct (t_pstate tc) as [[h|r]|] eqn:Hps.
       + destruct Ht as [Hpr Hst].
         destruct (http_repl_ok E clk h p HE Hst Hp) as (h' & o & -> & Hst'). cbn [bind].
         eexists _, _, _. split; [reflexivity|]. split; [apply ports_kept_refl|].
-        unfold tcb_ok. cbn [t_pstate t_proto]. split; assumption.
+        unfold tcb_state_ok. cbn [t_pstate t_proto]. split; assumption.
       + exfalso. rewrite Ht in Hid. subst id. discriminate.
       + destruct (http_repl_ok E clk http_new p HE (new_st_ok _ Htbl) Hp) as (h' & o & -> & Hst'). cbn [bind].
         eexists _, _, _. split; [reflexivity|]. split; [apply ports_kept_refl|].
-        unfold tcb_ok. cbn [t_pstate t_proto]. split; [congruence|assumption].
+        unfold tcb_state_ok. cbn [t_pstate t_proto]. split; [congruence|assumption].
     - destruct (http_repl_ok E clk http_new p HE (new_st_ok _ Htbl) Hp) as (h' & o & -> & Hst'). cbn [bind].
       eexists _, _, _. split; [reflexivity|]. split; [apply ports_kept_refl|exact I]. }
   destruct (id =? PROTO_STUN) eqn:E2.
@@ -93,15 +93,15 @@ Proof.
     destruct (ci_port_dst ci) as [port|];
       [|eexists _, _, _; split; [reflexivity|]; split; [apply ports_kept_refl|]; destruct t; [exact Ht|exact I]].
     destruct t as [tc|].
-    - cbn [opt_tcb_ok] in Ht. unfold tcb_ok in Ht.
+    - cbn [opt_tcb_ok] in Ht. unfold tcb_state_ok in Ht.
       destruct (t_pstate tc) as [[h|r]|] eqn:Hps.
       + exfalso. destruct Ht as [Hpr _]. rewrite Hpr in Hid. subst id. discriminate.
       + destruct (rpc_repl_tcp r ip port p) as [r' o].
         eexists _, _, _. split; [reflexivity|]. split; [apply ports_kept_refl|].
-        unfold tcb_ok. cbn [t_pstate t_proto]. exact Ht.
+        unfold tcb_state_ok. cbn [t_pstate t_proto]. exact Ht.
       + destruct (rpc_repl_tcp (rpc_new R_FRAG) ip port p) as [r' o].
         eexists _, _, _. split; [reflexivity|]. split; [apply ports_kept_refl|].
-        unfold tcb_ok. cbn [t_pstate t_proto]. congruence.
+        unfold tcb_state_ok. cbn [t_pstate t_proto]. congruence.
     - eexists _, _, _. split; [reflexivity|]. split; [apply ports_kept_refl|exact I]. }
   destruct (id =? PROTO_RPC_UDP).
   { destruct (ci_ip_dst ci) as [ip|];
@@ -117,7 +117,7 @@ Proof.
   eexists _, _, _. split; [reflexivity|]. split; [apply ports_kept_refl|].
   destruct t as [tc|]; [|exact I].
   (* the protocol id is reset; a control block with a parser state is never dispatched here *)
-  cbn [opt_tcb_ok] in Ht. unfold tcb_ok in *. cbn [t_pstate t_proto].
+  cbn [opt_tcb_ok] in Ht. unfold tcb_state_ok in *. cbn [t_pstate t_proto].
   destruct (t_pstate tc) as [[h|r]|]; [| |exact I].
   - exfalso. destruct Ht as [Hpr _]. rewrite Hpr in Hid. subst id. discriminate.
   - exfalso. rewrite Ht in Hid. subst id. rewrite N.eqb_refl in E5. discriminate.
@@ -127,18 +127,23 @@ Lemma proto_repl_tcp_ok E clk ci tc p :
   env_ok E = true -> bytes_ok p = true -> tcb_ok E tc ->
   exists ci' tc' o, proto_repl_tcp E clk ci tc p = Ok (ci', tc', o) /\ ports_kept ci ci' /\ tcb_ok E tc'.
 Proof.
-  intros HE Hp Ht. unfold proto_repl_tcp.
-  set (tc1 := if t_proto tc =? PROTO_NONE then _ else tc).
-  assert (tcb_ok E tc1) as Ht1.
-  { unfold tc1. destruct (t_proto tc =? PROTO_NONE) eqn:En; [|exact Ht].
-    destruct (search_next _ _ _) as [[id st] n].
-    unfold tcb_ok in *. cbn [t_pstate t_proto]. apply N.eqb_eq in En.
-    destruct (t_pstate tc) as [[h|r]|]; [| |exact I].
-    - destruct Ht as [Hpr _]. rewrite Hpr in En. discriminate.
-    - rewrite Ht in En. discriminate. }
-  destruct (dispatch_ok E clk ci (Some tc1) p (t_proto tc1) HE Hp Ht1 eq_refl) as (ci' & t' & o & -> & Hk & Hm).
-  cbn [bind]. destruct t' as [tc'|]; [|contradiction].
-  eexists _, _, _. split; [reflexivity|]. split; assumption.
+  intros HE Hp [Ht Hpe].
+  pose proof (proto_repl_tcp_pending E clk ci tc p) as Hpend.
+  unfold proto_repl_tcp in *.
+  pose proof (tcp_identify_data_ok E tc p (proj1 Hpe) Hp) as Hd1.
+  assert (tcb_state_ok E (fst (tcp_identify E tc p))) as Ht1.
+  { unfold tcp_identify. destruct (t_proto tc =? PROTO_NONE) eqn:En; [|exact Ht].
+    apply N.eqb_eq in En.
+    assert (t_pstate tc = None) as Hn.
+    { unfold tcb_state_ok in Ht. destruct (t_pstate tc) as [[h|r]|]; [| |reflexivity].
+      - destruct Ht as [Hpr _]. rewrite Hpr in En. discriminate.
+      - rewrite Ht in En. discriminate. }
+    destruct (search_next _ _ _) as [[[i|] st] n]; unfold tcb_state_ok; cbn [fst t_pstate]; rewrite Hn; exact I. }
+  destruct (tcp_identify E tc p) as [tc1 data1]. cbn [fst snd] in *.
+  destruct (dispatch_ok E clk ci (Some tc1) data1 (t_proto tc1) HE Hd1 Ht1 eq_refl) as (ci' & t' & o & Hdis & Hk & Hm).
+  rewrite Hdis in *. cbn [bind] in *. destruct t' as [tc'|]; [|contradiction].
+  eexists _, _, _. split; [reflexivity|]. split; [assumption|]. split; [assumption|].
+  exact (Hpend _ _ _ Hpe Hp eq_refl).
 Qed.
 
 Lemma proto_repl_udp_ok E clk ci p :
@@ -157,7 +162,7 @@ Qed.
 From MS Require Import Proofs.C08.
 
 Lemma tcb_new_ok E : tcb_ok E tcb_new.
-Proof. exact I. Qed.
+Proof. split; [exact I|exact pending_ok_new]. Qed.
 
 Lemma table_ok_set E k tc tb : table_ok E tb -> tcb_ok E tc -> table_ok E (tbl_set k tc tb).
 Proof.
@@ -188,7 +193,7 @@ Proof.
     destruct (negb (tbl_mem ck tb) && negb (ck =? _)); [eexists _, _, _, _; split; [reflexivity|exact Htb]|].
     set (tc := match tbl_find ck tb with Some t => t | None => tcb_new end).
     assert (tcb_ok E tc) as Htc.
-    { unfold tc. destruct (tbl_find ck tb) eqn:Hf; [eapply Htb; exact Hf|exact I]. }
+    { unfold tc. destruct (tbl_find ck tb) eqn:Hf; [eapply Htb; exact Hf|apply tcb_new_ok]. }
     destruct (proto_repl_tcp_ok E clk (ci_set_cookie ci ck) tc (tcp_payload p) HE (tcp_payload_ok _ Hp) Htc)
       as (ci2 & tc' & o & -> & [Hps Hpd] & Htc'). cbn [bind].
     assert (ci_port_src ci2 = Some (u16_at 0 p)) as Hs by (rewrite Hps; reflexivity).
@@ -341,3 +346,7 @@ Proof.
   eapply Forall_impl; [|exact Hall]. intros [clk f] [Hf Hc]. cbn [fst snd] in *.
   split; [exact Hf|apply udp_replies_short_holds; assumption].
 Qed.
+
+(* the invariant contains the one the well-formedness results (C04) are stated under *)
+Lemma table_ok_pending E tb : table_ok E tb -> table_pending_ok tb.
+Proof. intros H k tc Hf. exact (proj2 (H k tc Hf)). Qed.
